@@ -34,6 +34,28 @@ func safely(f func()) (panicked any) {
 
 func nonzero(b []byte) bool { return !sim.IsZero(b) }
 
+// retained holds earlier encoder outputs (the very slices returned) with private copies of their
+// content: an encoder that hands out memory it reuses later would change them behind the caller's back.
+var retained struct {
+	outs, copies [][]byte
+}
+
+func retain(out []byte) *Viol {
+	for i, o := range retained.outs {
+		if !eq(o, retained.copies[i]) {
+			v := viol("C16", 0, "bytes returned by an earlier encode call changed after later values were encoded", hexs(retained.copies[i]), hexs(o))
+			retained.outs, retained.copies = nil, nil
+			return v
+		}
+	}
+	retained.outs = append(retained.outs, out)
+	retained.copies = append(retained.copies, append([]byte{}, out...))
+	if len(retained.outs) > 6 {
+		retained.outs, retained.copies = retained.outs[1:], retained.copies[1:]
+	}
+	return nil
+}
+
 // c16check runs one case; nt reports non-triviality.
 func c16check(c c16case) (v *Viol, nt bool) {
 	unhex := func(s string) []byte { b, _ := hex.DecodeString(s); return b }
@@ -84,6 +106,9 @@ func c16check(c c16case) (v *Viol, nt bool) {
 		}
 		if !eq(ib, rb) {
 			return viol("C16", 0, "encoded message vs the CCTP layout", hexs(rb), hexs(ib)), false
+		}
+		if v := retain(ib); v != nil {
+			return v, false
 		}
 		back, err := new(types.Message).Parse(ib)
 		if err != nil {
@@ -145,6 +170,9 @@ func c16check(c c16case) (v *Viol, nt bool) {
 		}
 		if !eq(ib, rb) {
 			return viol("C16", 0, "encoded burn message vs the CCTP layout", hexs(rb), hexs(ib)), false
+		}
+		if v := retain(ib); v != nil {
+			return v, false
 		}
 		back, err := new(types.BurnMessage).Parse(ib)
 		if err != nil {
